@@ -133,6 +133,8 @@ def run(ctx):
                    "under child_state=Running exactly one posix::kill must be reachable (found %d)" % len(sends))
     ctx.exhaustive = True
 
+    reported_status_is_recorded(ctx, prog, "R10.4")
+
     # R10.5 signature facts: send_signal takes &self, wait/poll/wait_timeout take &mut self
     sig = ss.j.get("inputs", [])
     ctx.ob("R10.5", "send_signal.&self", bool(sig) and sig[0].startswith("&") and "mut" not in sig[0].split("popen::Popen")[0], ss.loc(0),
